@@ -78,6 +78,39 @@ pub unsafe extern "C" fn recv(fd: libc::c_int, buf: *mut libc::c_void, len: libc
     r as libc::ssize_t
 }
 
+/// `sigprocmask(2)` and `raise(3)` (used by the default-action emulation) are scheduling points of
+/// the simulated process: another thread may run, another signal may arrive, between any two of
+/// them.  Behaviour is passed through unchanged to libc's own implementation.
+mod next_sym {
+    use std::sync::atomic::{AtomicUsize, Ordering};
+    pub static SIGPROCMASK: AtomicUsize = AtomicUsize::new(0);
+    pub static RAISE: AtomicUsize = AtomicUsize::new(0);
+    pub unsafe fn get(slot: &AtomicUsize, name: &[u8]) -> usize {
+        let p = slot.load(Ordering::Relaxed);
+        if p != 0 {
+            return p;
+        }
+        let f = libc::dlsym(libc::RTLD_NEXT, name.as_ptr() as *const libc::c_char) as usize;
+        assert!(f != 0, "dlsym(RTLD_NEXT) failed");
+        slot.store(f, Ordering::Relaxed);
+        f
+    }
+}
+
+#[no_mangle]
+pub unsafe extern "C" fn sigprocmask(how: libc::c_int, set: *const libc::sigset_t, old: *mut libc::sigset_t) -> libc::c_int {
+    sighook_shim::hook::syscall_point();
+    let f: unsafe extern "C" fn(libc::c_int, *const libc::sigset_t, *mut libc::sigset_t) -> libc::c_int = std::mem::transmute(next_sym::get(&next_sym::SIGPROCMASK, b"sigprocmask\0"));
+    f(how, set, old)
+}
+
+#[no_mangle]
+pub unsafe extern "C" fn raise(sig: libc::c_int) -> libc::c_int {
+    sighook_shim::hook::syscall_point();
+    let f: unsafe extern "C" fn(libc::c_int) -> libc::c_int = std::mem::transmute(next_sym::get(&next_sym::RAISE, b"raise\0"));
+    f(sig)
+}
+
 pub mod getrandom_state {
     use std::sync::atomic::{AtomicU64, Ordering};
     pub static CTR: AtomicU64 = AtomicU64::new(0x243F6A8885A308D3);
